@@ -89,6 +89,7 @@ def stepSt (s : St) : List String → St × String
       | (_, .bool b) => (s, bit b)
       | _ => (s, "model-bug")
   | ["tv_new", k, c0] => ({ s with tv := { current := c0.toNat? }, kind := k }, "ok")
+  | ["assign_fail", _] => (s, if s.kind == "w" then "bad_alloc" else "bad-op")   -- the failed assignment is a no-op
   | ["assignz"] => ({ s with tv := s.tv.assign zeroTok }, "ok")
   | ["assign", x] =>
       match x.toNat? with
